@@ -266,6 +266,10 @@ func fuzzCheck(c Case, D thriftspec.Dialect) result {
 	if rerr != nil {
 		return result{note: "reference-rejects"}
 	}
+	if p == thriftspec.Compact && thriftspec.HasBool1(ref, false, true) && evid.KnownActive(classMapBool1) {
+		// a map announcing BOOL as 1: listed defect of Unmarshal, excluded while known
+		return result{note: "excluded-map-bool-type-1", excl: []string{classMapBool1}}
+	}
 	want := reflect.New(typ).Elem()
 	okType := false
 	if r := guard("harness fromTree", func() result { okType = fromTree(td, &ref, want); return result{} }); r.fail != nil {
